@@ -1376,7 +1376,6 @@ func ruleEngine(c *Ctx) {
 	}
 }
 
-
 // reentrantClosures (clause of EFFECT-5): compiled code is re-entrant. A function literal of a back end that runs at
 // evaluation time — it takes the run-time environment (`func(*val.Env) *val.Val`), or is a thunk / function value body
 // (`func(...*val.Val) *val.Val`) — never assigns a local variable declared outside itself: such a variable belongs to
